@@ -21,6 +21,9 @@ func init() {
 			{ID: "C07.R4", Floor: 8, Run: c03r3, Text: "selectors agree (= C03.R3): Register's initial list (getArchetypes), the incremental update (addArchetype) and uncached queries select tables by the same rule"},
 			{ID: "C07.R6", Floor: 5, Run: c06r2, Text: "retire co-update (= C06.R2): wherever a table is retired, the cache's removeArchetype is called with it on every path"},
 			{ID: "C07.R5", Floor: 3, Run: c07r5, Text: "CachedFilter.Matches returns the wrapped filter's result; Unregister returns the stored filter, deletes the id, and re-indexes the entry it swapped into the vacated position"},
+			{ID: "C07.R7", Floor: 1, Run: selectorNoLen, Text: "the selector that fills cache entries and feeds batch operations (getArchetypes) does not test Len(): registration time must not matter"},
+			{ID: "C07.R8", Floor: 1, Run: cacheAddDominance, Text: "Cache.addArchetype adds a table to an entry only where the table has no relation, or the entry's filter is not a relation filter, or the filter's target equals the table's target"},
+			{ID: "C07.R9", Floor: 3, Run: cacheNeverRecycles, Text: "filter ids are never recycled (= C10.R8): unregistering leaves all other registrations working"},
 		},
 	})
 }
